@@ -114,6 +114,9 @@ func checkC13(c C13Case, o *Obs) (err error) {
 		}
 	}()
 	dataCopy := bytes.Clone(data)
+	if c.Kind == "dna" {
+		warmSequtil(c.Data, o)
+	}
 	o.Class("kind:" + c.Kind)
 	o.ClassIf(len(c.Dst) > 0, "non-empty dst")
 	o.ClassIf(len(c.Dst) > 0 && c.Spare != 0, "non-empty dst with tight capacity")
@@ -298,6 +301,18 @@ func exhaustiveC13(thorough bool, emit func(C13Case) bool) {
 		if !emit(C13Case{Kind: "dna", Data: mb}) || !emit(C13Case{Kind: "dna", Data: bad}) {
 			return
 		}
+		// ... also with two or three foreign bytes far apart (each piece of a piecewise
+		// implementation meets one)
+		n := len(mb)
+		for _, positions := range [][]int{{1000, n - 1000}, {0, n / 2, n - 1}, {1<<18 - 1, 1 << 18, 3 << 18}} {
+			bad := bytes.Clone(mb)
+			for _, pos := range positions {
+				bad[pos] = "NU@x"[pos%4]
+			}
+			if !emit(C13Case{Kind: "dna", Data: bad}) {
+				return
+			}
+		}
 	}
 	// one sequence as long as a large chromosome arm (2^28 bases and a few): no length is special
 	if thorough {
@@ -388,7 +403,8 @@ func propC13() Prop[C13Case] {
 	return Prop[C13Case]{ID: "C13", Gen: genC13, Exhaustive: exhaustiveC13, Check: checkC13, Key: keyC13,
 		// announced before they run: a panic raised on a goroutine started by the library kills
 		// the process and no caller can recover it
-		Risky: func(c C13Case) bool { return len(c.Data) >= 1<<20 || c.Huge > 0 }}
+		Risky:         func(c C13Case) bool { return len(c.Data) >= 1<<20 || c.Huge > 0 },
+		MustTerminate: func(c C13Case) bool { return len(c.Data) >= 1<<20 }}
 }
 
 func TestC13(t *testing.T) { Run(t, propC13()) }
